@@ -143,15 +143,22 @@ pub fn sign<S: MlDsa>(seed: u64, nfull: usize, nfactor: usize, allctx: bool, out
 /// omega, most attempts) are emitted for full recomputation by the TLA+ Sign state machine.
 pub fn hunt<S: MlDsa>(seed: u64, nsign: usize, nfull: usize, out: &mut Out) {
     let mut p = Prng::new(seed, 0x0310 + S::SET as u64);
-    let (_pk, sk) = S::keygen_seed(&p.arr32());
-    let skb = S::sk_bytes(&sk);
+    let (_pk, sk0) = S::keygen_seed(&p.arr32());
+    let skb0 = S::sk_bytes(&sk0);
+    // second key: the same key with its first t0 polynomial at the upper end (bytes zeroed: t0 = 2^12 everywhere), which
+    // FIPS 204 accepts; its c*t0 is large, so the SECOND rejection test of the loop (rare for honest keys) fires often
+    let mut skb1 = skb0.clone();
+    let t0_start = 128 + (S::L + S::K) * 32 * vh::bit_length(2 * S::ETA);
+    for x in skb1[t0_start..t0_start + 416].iter_mut() { *x = 0; }
+    let sk1 = S::sk_from(&skb1).expect("accepted");
     let (e1, e2) = (S::GAMMA1 - S::beta(), S::GAMMA2 - S::beta());
     let mut rare: Vec<(i64, Vec<u8>, [u8; 32], Vec<u8>, usize, u32)> = vec![];
     for i in 0..nsign {
+        let (sk, skb) = if i % 3 == 2 { (&sk1, &skb1) } else { (&sk0, &skb0) };
         let mp = p.bytes(8 + (i % 40));
         let rnd = p.arr32();
         vh::trace_start();
-        let r = guarded(|| S::internal_sign(&sk, &mp, rnd));
+        let r = guarded(|| S::internal_sign(sk, &mp, rnd));
         let evs: Vec<[i64; 8]> = vh::trace_take().iter().filter(|e| e.0 == "sign_attempt").map(|e| e.1).collect();
         let Ok(sig) = r else { let (loc, msg) = r.err().unwrap(); out.ev(json!({"ev": "Panic", "call": "internal_sign", "loc": loc, "msg": msg})); continue };
         let att: Vec<Value> = evs.iter().map(|a| json!([a[0], a[1], a[2], a[3], a[4], a[5]])).collect();
@@ -166,7 +173,8 @@ pub fn hunt<S: MlDsa>(seed: u64, nsign: usize, nfull: usize, out: &mut Out) {
             if a[4] == S::OMEGA as i64 || a[4] == S::OMEGA as i64 + 1 { score += 300; classes |= 8; }
             if a[3] == S::GAMMA2 as i64 - 1 || a[3] == S::GAMMA2 as i64 { score += 300; classes |= 16; }
         }
-        rare.push((score, mp, rnd, sig, evs.len(), classes));
+        if a_ct0_big(&evs, S::GAMMA2) { score += 200; classes |= 16; }
+        rare.push((score, [skb.clone(), mp].concat(), rnd, sig, evs.len(), classes));
     }
     // one representative of every rarity CLASS is recomputed in full (a slip on one rare path must not hide behind another)
     rare.sort_by(|a, b| b.0.cmp(&a.0));
@@ -178,10 +186,13 @@ pub fn hunt<S: MlDsa>(seed: u64, nsign: usize, nfull: usize, out: &mut Out) {
     }
     for i in 0..rare.len() { if picked.len() >= nfull.max(6) { break; } if !picked.contains(&i) { picked.push(i); } }
     for i in picked.into_iter().take(nfull.max(6)) {
-        let (_, mp, rnd, sig, n, _) = &rare[i];
-        out.ev(json!({"ev": "SignInternal", "hunted": true, "sk": jbytes(&skb), "mp": jbytes(mp), "rnd": jbytes(rnd), "sig": jbytes(sig), "attempts": n}));
+        let (_, skmp, rnd, sig, n, _) = &rare[i];
+        let (skb, mp) = skmp.split_at(S::SK_LEN);
+        out.ev(json!({"ev": "SignInternal", "hunted": true, "sk": jbytes(skb), "mp": jbytes(mp), "rnd": jbytes(rnd), "sig": jbytes(sig), "attempts": n}));
     }
 }
+
+fn a_ct0_big(evs: &[[i64; 8]], g2: i32) -> bool { evs.iter().any(|a| a[3] >= g2 as i64 - 8 && a[3] >= 0) }
 
 /// events from ACVP sigGen vectors run through the library (the driver passes a pre-digested file)
 pub fn acvp_sign<S: MlDsa>(path: &str, limit: usize, offset: usize, out: &mut Out) {
@@ -299,7 +310,7 @@ pub fn verify<S: MlDsa>(seed: u64, nacc: usize, nrand: usize, stress: bool, out:
     let xi = p.arr32();
     let (pk, sk) = S::keygen_seed(&xi);
     let pkb = S::pk_bytes(&pk);
-    for i in 0..nacc.max(1) {
+    for i in 0..nacc.max(4) {
         let mode = MODES[i % 4];
         let m = msg_of(&mut p, i as u64 + seed);
         let ctx = ctx_of(&mut p, i as u64);
@@ -376,6 +387,59 @@ pub fn verify<S: MlDsa>(seed: u64, nacc: usize, nrand: usize, stress: bool, out:
             if name.contains("empty poly") || name.contains("below previous") { emit_verify::<S>(out, &format!("3 hint (sparse forged base): {}", name), &f.pk, &mp, &s3, &[], "pure", true); }
         }
     }
+    // family 4f: a forged (t1 = 0) base, where the commitment the verifier recomputes does NOT depend on c~: every
+    // single byte of c~ is then an independent test of the final comparison (first, 32nd, 33rd, last byte, a middle one)
+    {
+        let z = rand_z::<S>(&mut p, edge - 1);
+        let h = rand_h::<S>(&mut p, 2);
+        let mp = msg_of(&mut p, 21);
+        let f = forge::<S>(&rho, &z, &h, &mp);
+        let n = S::LAMBDA / 4;
+        for pos in [0usize, 15, 31, 32.min(n - 1), n / 2 + 9, n - 1] {
+            for bit in [0u8, 7] {
+                let mut s3 = f.sig.clone(); s3[pos] ^= 1 << bit;
+                emit_verify::<S>(out, &format!("4f forged base, c~ byte {} bit {} changed (reject)", pos, bit), &f.pk, &mp, &s3, &[], "pure", true);
+            }
+        }
+    }
+    // family 3u: hint bits toggled on coefficients whose low part sits on a boundary of UseHint (r0 = 0, +-1, gamma2,
+    // -gamma2+1): FIPS 204 rejects every one (the commitment changes), an implementation whose UseHint slips at such a
+    // point accepts.  The coefficients are found with the harness's arithmetic in a pool of honest signatures.
+    {
+        let t1 = S::pk_decode(&pkb).unwrap();
+        let a_hat = S::expand_a(&xi_rho::<S>(&pkb));
+        let g2 = S::GAMMA2 as i64;
+        let mut seen: Vec<i64> = vec![];
+        'pool: for k in 0..1200u32 {
+            let m = k.to_le_bytes();
+            let sig = S::sign(&sk, &mut ScriptRng::new(&p.arr32()), &m, b"", "pure").unwrap();
+            let Some((ct, z, h)) = S::sig_decode(&sig) else { continue };
+            let c = vh::sample_in_ball::<false>(S::TAU, &ct);
+            let az = refmath::mat_vec(&a_hat, &z);
+            let ch = refmath::ntt(&c);
+            for i in 0..S::K {
+                let t1s: Poly = core::array::from_fn(|n| t1[i][n] << 13);
+                let th = refmath::ntt(&t1s);
+                let prod: [i64; 256] = core::array::from_fn(|n| ch[n] * th[n] % refmath::Q);
+                let ct1 = refmath::inv_ntt(&prod);
+                for n in 0..256 {
+                    let wp = refmath::modq(az[i][n] - ct1[n]);
+                    let r0 = { let t = wp % (2 * g2); if t > g2 { t - 2 * g2 } else { t } };
+                    if [0i64, 1, -1, g2, -g2 + 1].contains(&r0) && !seen.contains(&r0) && wp != refmath::Q - 1 {
+                        let mut h2 = h.clone();
+                        h2[i][n] ^= 1;
+                        let wt: i32 = h2.iter().map(|p| p.iter().sum::<i32>()).sum();
+                        if wt > S::OMEGA { continue; }
+                        let s2 = S::sig_encode(&ct, &z, &h2);
+                        emit_verify::<S>(out, &format!("3u hint bit toggled where r0 = {} (reject)", r0), &pkb, &m, &s2, &[], "pure", false);
+                        seen.push(r0);
+                        if seen.len() >= 5 { break 'pool; }
+                        continue 'pool;
+                    }
+                }
+            }
+        }
+    }
     // family 4w: over-long contexts with a signature made over the WRAPPED length byte (what a verifier
     // that forgets the 255-byte rule, or applies it off by one, would reconstruct)
     for (i, n) in [256usize, 257, 300, 511, 512, 65536 + 7].iter().enumerate() {
@@ -442,6 +506,8 @@ pub fn replay_event<S: MlDsa>(e: &Value, out: &mut Out) {
         other => panic!("cannot replay event kind {}", other),
     }
 }
+
+fn xi_rho<S: MlDsa>(pkb: &[u8]) -> [u8; 32] { pkb[..32].try_into().unwrap() }
 
 pub fn run(sub: &str, a: &Args) {
     if sub == "replayf" {
